@@ -3,6 +3,7 @@ import VaxisModel.Driver.C03
 import VaxisModel.Model.Width
 import VaxisModel.Model.Startup
 import VaxisModel.Gen.Sequences
+import VaxisModel.Driver.C07img
 
 /-! Driver for C07 capability detection and width method. Lines:
   caps <19 advertised bits, MSB first = xtversion … LSB = sixel> <initcol> <kitty>  \t <17 detected bits> <7 Can* bits>
@@ -10,6 +11,8 @@ import VaxisModel.Gen.Sequences
   start dk=<b> ct=<b> q=<n> @ <seq> | <seq> | …   \t <17 detected bits in `capabilities` order> <10 Can* bits> tid=<cps>
     (the parsed sequences of a whole reply stream handed to a real `vaxis.New`, in arrival order; model-canon = the
     start-up LTS of `Model/Startup.lean` run under the eager schedule; verdict = `Spec.Startup.specCaps` of the stream)
+  img … (image objects at run time: see Driver/C07img.lean; the bytes NewImage / Resize / Draw + Render / Destroy really
+    wrote are lexed and judged by `Spec.ImageEsc.judge`)
 The expected detection is the specification "exactly those the replies established": each flag is on
 iff the terminal sent the reply that advertises it. -/
 namespace VaxisModel.Driver.C07caps
@@ -180,6 +183,7 @@ def apiExpected (adv name a b : String) : Option String :=
 def step (line : String) : String :=
   let (op, impl) := splitTab line
   if op.startsWith "start " then stepStart op impl else
+  if op.startsWith "img " then VaxisModel.Driver.C07img.stepImg op impl else
   match fields op with
   | ["caps", a, _, k] =>
       let e := expected a (k == "1")
